@@ -372,10 +372,11 @@ struct Interp
         FV& v = *pool[i];
         if constexpr (COPY)
         {
-            if (n == "as") { arm(); FV& r = (v = static_cast<const FV&>(*pool[op.a[1]])); return &r == &v ? ok : "D!ret"; }
+            // auto&&: an operator= that returns by value still compiles here and is reported (D!ret) instead of breaking the build
+            if (n == "as") { arm(); auto&& r = (v = static_cast<const FV&>(*pool[op.a[1]])); return &r == &v ? ok : "D!ret"; }
             if (n == "la")
             {
-                with_il<E>(op.xs, [&](std::initializer_list<E>& il) { arm(); FV& r = (v = il); if (&r != &v) ok = "D!ret"; });
+                with_il<E>(op.xs, [&](std::initializer_list<E>& il) { arm(); auto&& r = (v = il); if (&r != &v) ok = "D!ret"; });
                 return ok;
             }
             if (n == "in") { E x(static_cast<int>(op.a[1])); arm(); auto r = v.insert(x); return r + 1 == v.size() ? ok : "D!ret"; }
@@ -395,7 +396,7 @@ struct Interp
                 return ok;
             }
         }
-        if (n == "ma") { arm(); FV& r = (v = std::move(*pool[op.a[1]])); return &r == &v ? ok : "D!ret"; }
+        if (n == "ma") { arm(); auto&& r = (v = std::move(*pool[op.a[1]])); return &r == &v ? ok : "D!ret"; }
         if (n == "at") { (void)ch(v.at(op.a[1])); (void)ch(static_cast<const FV&>(v).at(op.a[1])); return ok; }
         if (n == "get") { return get_dyn(v, op.a[1]) == 'R' ? "R" : ok; }
         if (n == "em") { arm(); v.emplace(v.begin() + op.a[1], static_cast<int>(op.a[2])); return ok; }
